@@ -266,6 +266,29 @@ func extFloat32frombits(fr *frame, args []value) value {
 // extParseFloat: concrete input -> native; symbolic input -> real body.
 func extParseFloat(fr *frame, args []value) value {
 	s, ok := args[0].(string)
+	if !ok && !isSym(args[1]) {
+		// Symbolic digits: ParseFloat is summarised by a nondeterministic
+		// stub (any float64 of the requested size, or a *NumError). The
+		// decimal-to-binary conversion multiplies symbolic mantissas, which
+		// no available solver decides; the standard library function itself
+		// is trusted not to panic.
+		i := fr.i
+		t, v := i.run.newVar(smt.Bool, "ParseFloat fails")
+		if i.decide(sym{c: v != 0, t: t}, BrIf, "strconv.ParseFloat stub") {
+			strconvPkg := i.prog.ImportedPackage("strconv")
+			numErr := strconvPkg.Type("NumError").Object().Type()
+			errSyntax := load(types.Universe.Lookup("error").Type(), i.global(strconvPkg.Var("ErrSyntax")))
+			var cell value = structure{"ParseFloat", args[0], errSyntax}
+			return tuple{float64(0), iface{t: types.NewPointer(numErr), v: &cell}}
+		}
+		if asInt64(args[1]) == 32 {
+			ft, fv := i.run.newVar(smt.BV32, "float32bits")
+			f32 := sym{c: math.Float32frombits(uint32(fv)), t: smt.App("(_ to_fp 8 24)", smt.FP32, ft)}
+			return tuple{i.convS(types.Typ[types.Float64], types.Typ[types.Float32], f32), iface{}}
+		}
+		ft, fv := i.run.newVar(smt.BV64, "float64bits")
+		return tuple{sym{c: math.Float64frombits(fv), t: smt.App("(_ to_fp 11 53)", smt.FP64, ft)}, iface{}}
+	}
 	if !ok || isSym(args[1]) {
 		return useBody
 	}
